@@ -199,11 +199,12 @@ func (r *Runner) builtin(ctx context.Context, pos syntax.Pos, name string, args 
 		if n < 0 {
 			return failf(1, "shift: %d: shift count out of range\n", n)
 		}
-		if n >= len(r.Params) {
-			r.Params = nil
-		} else {
-			r.Params = r.Params[n:]
+		if n > len(r.Params) {
+			// Like bash, fail quietly and leave the parameters alone.
+			exit.code = 1
+			break
 		}
+		r.Params = r.Params[n:]
 	case "unset":
 		vars := true
 		funcs := true
